@@ -296,12 +296,12 @@ let run_line (line : String.t) : unit =
              let bufs = next t in
              let c = parse_chunk t in
              let size = size_of (chunk_calc c) in
-             print_kvs id (run_build_chunk c (parse_bufs bufs size))
+             print_kvs id (run_build_chunk c (parse_bufs bufs size) @ spec_chunk c)
          | "item" ->
              let bufs = next t in
              let c = parse_item t in
              let size = size_of (item_calc c) in
-             print_kvs id (run_build_item c (parse_bufs bufs size))
+             print_kvs id (run_build_item c (parse_bufs bufs size) @ spec_item c)
          | "hist" ->
              (* the spec side of a history is the spec of its declarative final configuration *)
              let h = parse_hist t in
